@@ -93,6 +93,9 @@ Proof.
   apply IH. apply sat_range. apply hex_val_nonneg in E. nia.
 Qed.
 
+Lemma wrap_sign_lt z : z < 9223372036854775808 -> wrap_sign z = z.
+Proof. intros H. unfold wrap_sign. destruct (z =? 9223372036854775808) eqn:E; [lia|reflexivity]. Qed.
+
 (* get_int / get_hex on ANY text: |value| <= max(|default|, NUMERAL_MAX) *)
 Theorem get_hex_bounded def flag s : Z.abs (fst (get_hex def flag s)) <= Z.max (Z.abs def) NUMERAL_MAX.
 Proof.
@@ -120,7 +123,8 @@ Proof.
   all: try (cbn [fst]; lia).
   all: try match goal with
        | |- context [get_hex ?d ?f ?x] =>
-           pose proof (get_hex_bounded d f x) as Hh; destruct (get_hex d f x) as [v s2]; cbn [fst] in *; lia
+           pose proof (get_hex_bounded d f x) as Hh; destruct (get_hex d f x) as [v s2]; cbn [fst] in *;
+           unfold wrap_sign; match goal with |- context [if ?b then _ else _] => destruct b eqn:? end; lia
        end.
   all: try match goal with
        | |- context [take_oct 0 ?x] =>
